@@ -138,7 +138,7 @@ def tlc_schedules(report, rng, tier):
     import re
     from common import run_tlc, fresh, MachineryError
     insts, meta = [], {}
-    n = 100 if tier == "quick" else 1600
+    n = 100 if tier == "quick" else 500
     for gi in range(n):
         srn, parser = [("Sat3", "earley"), ("Rat", "rescaled"), ("Rat", "earley"), ("Rat", "rescaled")][gi % 4]
         R = gops.SR[srn]
@@ -159,7 +159,7 @@ def tlc_schedules(report, rng, tier):
     f.write_text("".join(json.dumps(i) + "\n" for i in insts))
     cfg = ("CONSTANT InstanceSet <- JsonInstances\nINIT Init\nNEXT Next\nVIEW view\n"
            "CONSTRAINT ReplayReport\nCHECK_DEADLOCK FALSE\n")
-    res = run_tlc("ReplayEarley", cfg, env={"INST_FILE": str(f)}, timeout=900)
+    res = run_tlc("ReplayEarley", cfg, env={"INST_FILE": str(f)}, timeout=4000)
     if not res.ok:
         raise MachineryError("ReplayEarley failed:\n" + res.errhead)
     report.add_tlc(res, f"Earley.tla: all tie-break schedules of {len(insts)} live parser instances")
